@@ -364,14 +364,14 @@ func init() {
 	engine.Register(&engine.Prop{
 		ID: "C06",
 		Shards: func(th bool) []string {
-			s := []string{"depth1"}
+			s := []string{"depth1", "spellings"}
 			for _, op := range c06Ops {
 				s = append(s, "L:"+op, "R:"+op, "LR:"+op, "N:"+op, "D3:"+op)
 			}
 			return s
 		},
 		Run:  c06Run,
-		Rule: "expression trees over the pool {0,1,2,7,-3 (variable),1.5,2.0,\"a\",\"b\",\"\",true,false,nil} and all 13 binary operators + '!': every depth-1 tree; every (a∘b)∘c and a∘(b∘c) for all operator pairs and all operand triples; every (a∘b)∘(c∘d) for all operator triples over a reduced pool; the depth-3 chains a∘((b∘c)∘d), ((a∘b)∘c)∘d, a∘(b∘(c∘d)) for all operator triples over a pool of 3 (5 thorough); '!' applied to leaves and subtrees. Each tree is printed with minimal parentheses under the stated precedence table, with full parentheses, with redundant parentheses around every leaf, and with recording operands (short-circuit observation), rendered on the real code and compared with a reference evaluator in Go. Unspecified coercions (bool op non-bool, string compared with non-string, bool+bool) are only checked for totality. Non-trivial: tree has at least two operators.",
+		Rule: "expression trees over the pool {0,1,2,7,-3 (variable),1.5,2.0,\"a\",\"b\",\"\",true,false,nil} and all 13 binary operators + '!': every depth-1 tree; every (a∘b)∘c and a∘(b∘c) for all operator pairs and all operand triples; every (a∘b)∘(c∘d) for all operator triples over a reduced pool; the depth-3 chains a∘((b∘c)∘d), ((a∘b)∘c)∘d, a∘(b∘(c∘d)) for all operator triples over a pool of 3 (5 thorough); '!' applied to leaves and subtrees. Each tree is printed with minimal parentheses under the stated precedence table, with full parentheses, with redundant parentheses around every leaf, and with recording operands (short-circuit observation), rendered on the real code and compared with a reference evaluator in Go. Number spellings: every pair of literals from {5, 05, 0.5, .5, 2.0, 10.25, .25} with + * / < == > written with spaces, tight (a∘b), parenthesised tight ((a)∘(b)) and as array elements, against Go arithmetic on the same values. Unspecified coercions (bool op non-bool, string compared with non-string, bool+bool) are only checked for totality. Non-trivial: tree has at least two operators.",
 		Bound: func(th bool) string {
 			if th {
 				return "depth-2 trees (4-leaf shape over a pool of 7 operands, 3-leaf shapes over all 13) and depth-3 chains over a pool of 5"
@@ -385,6 +385,8 @@ func c06Run(t *engine.T, shard string) {
 	kind, op, _ := strings.Cut(shard, ":")
 	n := len(c06Pool)
 	switch kind {
+	case "spellings":
+		c06Spellings(t)
 	case "depth1":
 		for a := 0; a < n; a++ {
 			c06Check(t, "!a", &c06Node{op: "!", l: leaf(a)})
@@ -459,6 +461,54 @@ func c06Run(t *engine.T, shard string) {
 				c06Check(t, "!a∘b", &c06Node{op: op, l: &c06Node{op: "!", l: leaf(a)}, r: leaf(b)})
 				c06Check(t, "a∘!b", &c06Node{op: op, l: leaf(a), r: &c06Node{op: "!", l: leaf(b)}})
 				c06Check(t, "!(a∘b)", &c06Node{op: "!", l: &c06Node{op: op, l: leaf(a), r: leaf(b)}})
+			}
+		}
+	}
+}
+
+// c06Spellings: the value of a numeric literal does not depend on what is written right after it.
+func c06Spellings(t *engine.T) {
+	lits := []struct {
+		src string
+		val interface{}
+	}{{"5", 5}, {"05", 5}, {"0.5", 0.5}, {".5", 0.5}, {"2.0", 2.0}, {"10.25", 10.25}, {".25", 0.25}}
+	for _, a := range lits {
+		for _, b := range lits {
+			for _, op := range []string{"+", "*", "/", "<", "==", ">"} {
+				var vis []int
+				var werr error
+				want := c06Eval(&c06Node{op: op, l: &c06Node{leaf: c06Leaf{a.src, a.val}}, r: &c06Node{leaf: c06Leaf{b.src, b.val}, id: 1}}, &vis)
+				switch e := want.(type) {
+				case c06Err:
+					werr = fmt.Errorf("%v", e)
+				case c06Unspec:
+					continue
+				}
+				forms := []string{
+					`<%= ` + a.src + ` ` + op + ` ` + b.src + ` %>`,
+					`<%= ` + a.src + op + b.src + ` %>`,
+					`<%= (` + a.src + `)` + op + `(` + b.src + `) %>`,
+					`<%= [` + a.src + `,` + b.src + `][0] ` + op + ` [` + a.src + `,` + b.src + `][1] %>`,
+					`<%= ` + a.src + op + b.src + `%>`,
+				}
+				for _, src := range forms {
+					t.Case("spelling "+q(src), true, func() (string, *engine.Fail) {
+						out, err := Render(src, plush.NewContext())
+						if werr != nil {
+							if err == nil {
+								return "", engine.Failf("mismatch", "expected an error (%v), got %q", werr, out)
+							}
+							return "error", nil
+						}
+						if err != nil {
+							return "", engine.Failf("mismatch", "expected %v, got error %v", want, err)
+						}
+						if out != fmt.Sprint(want) {
+							return "", engine.Failf("mismatch", "expected %v, got %q", want, out)
+						}
+						return "value", nil
+					})
+				}
 			}
 		}
 	}
